@@ -28,8 +28,9 @@ receive buffer, so overwriting that buffer afterwards does not change the messag
 * Reference parsers: `Spec/Rfc7252Parse.lean`, `Spec/Rfc8323Parse.lean` (tokenise → prefix sums → 16-bit
   check → leniency filter), structured differently from the code.  Documented leniencies only; one
   documented restriction (frames whose declared length exceeds 32 bits are refused).
-* Limits stated as hypotheses: stream inputs below 4 GiB (`uint32(len(data))` in `Coder.Decode`), and
-  re-encodable stream messages below the library's 0x7fff0000 framing limit.
+* Limits stated as hypotheses: stream inputs below 4 GiB (`uint32(len(data))` in `Coder.Decode`) for the
+  reference equality, and stream inputs below the library's 0x7fff0000 framing limit (`messageMaxLen`)
+  for "accepted ⇒ re-encodable".
 -/
 namespace CoapVerif.Props.C02
 open CoapVerif CoapVerif.Model CoapVerif.Model.OptionCodec CoapVerif.Model.PoolMessage
@@ -139,9 +140,16 @@ theorem udp_decode_result_WF (bs : Bytes) (cap : Nat) (m : Msg) (n : Nat) (h : U
     WF .udp m = true := by
   rw [udp_decode_eq] at h; exact udpDec_WF cap bs m n h
 
+/-- The canonical re-encoding of an accepted stream message is never longer than the bytes it was decoded
+from (delta/length fields have a unique encoding; dropped options only free bytes). -/
+theorem tcp_decode_body_le (bs : Bytes) (cap : Nat) (m : Msg) (n : Nat) (h : TcpCoder.decode cap bs = .ok (m, n)) :
+    (encBody m).length ≤ bs.length := by
+  rw [tcp_decode_eq] at h; exact tcpDec_body_len cap bs m n h
+
 theorem tcp_decode_result_WF (bs : Bytes) (cap : Nat) (m : Msg) (n : Nat) (h : TcpCoder.decode cap bs = .ok (m, n))
-    (hb : (encBody m).length < tcpBodyLimit) : WF .tcp m = true := by
-  rw [tcp_decode_eq] at h; exact tcpDec_WF cap bs m n h hb
+    (hb : bs.length < tcpBodyLimit) : WF .tcp m = true := by
+  have hle := tcp_decode_body_le bs cap m n h
+  rw [tcp_decode_eq] at h; exact tcpDec_WF cap bs m n h (by omega)
 
 /-- Whatever the datagram decoder accepts can be re-encoded (`Size` and `Encode` succeed and produce `bs'`),
 and decoding `bs'` gives the same message again, consuming all of `bs'`. -/
@@ -157,7 +165,7 @@ theorem udp_decode_canonical (bs : Bytes) (cap : Nat) (m : Msg) (n : Nat) (h : U
   rw [this, ← hb, List.drop_length]; simp
 
 theorem tcp_decode_canonical (bs : Bytes) (cap : Nat) (m : Msg) (n : Nat) (h : TcpCoder.decode cap bs = .ok (m, n))
-    (hb : (encBody m).length < tcpBodyLimit) :
+    (hb : bs.length < tcpBodyLimit) :
     ∃ bs', TcpCoder.size m = .ok bs'.length ∧
       (∀ buf : Bytes, buf.length = bs'.length → TcpCoder.encode m buf = .ok ⟨bs'.length, false, bs'⟩) ∧
       TcpCoder.decode cap bs' = .ok (m, bs'.length) := by
@@ -236,6 +244,7 @@ open CoapVerif.Props.C02
 #print axioms tcp_decode_eq_ref
 #print axioms pooled_decode_eq_ref
 #print axioms udp_decode_result_WF
+#print axioms tcp_decode_body_le
 #print axioms tcp_decode_result_WF
 #print axioms udp_decode_canonical
 #print axioms tcp_decode_canonical
